@@ -19,14 +19,16 @@
  'unop': {'file': 'brush-core/src/arithmetic.rs', 'start': r'^fn apply_unary_op\(', 'mode': 'fn_body',
           'rewrites': [[r'eval_expr_impl\((\w+), shell, depth\)', r'__o.ev(\1)', 1]]},
  'incdec': {'file': 'brush-core/src/arithmetic.rs', 'start': r'^fn apply_unary_assignment_op\(', 'mode': 'fn_body',
-            'rewrites': [[r'deref_lvalue\(shell, (\w+), depth\)', r'__o.deref(\1)', 1],
+            'rewrites': [[r'pin_subscript\(shell, &?(\w+), depth\)', r'__o.pin(&\1)', 0],
+                         [r'deref_lvalue\(shell, &?(\w+), depth\)', r'__o.deref(&\1)', 1],
                          [r'assign\(shell, (\w+), (\w+), depth\)', r'__o.assign(\1, \2)', 4]]},
  'dispatch': {'file': 'brush-core/src/arithmetic.rs', 'start': r'^fn eval_expr_impl\(', 'mode': 'fn_body',
             'rewrites': [[r'eval_expr_impl\((\w+), shell, depth\)', r'__o.ev(\1)', 4],
-                         [r'deref_lvalue\(shell, (\w+), depth\)', r'__o.deref(\1)', 1],
-                         [r'assign\(shell, (\w+), (\w+), depth\)', r'__o.assign(\1, \2)', 2],
+                         [r'pin_subscript\(shell, &?(\w+), depth\)', r'__o.pin(&\1)', 0],
+                         [r'deref_lvalue\(shell, &?(\w+), depth\)', r'__o.deref(&\1)', 1],
+                         [r'assign\(shell, &?(\w+), (\w+), depth\)', r'__o.assign(&\1, \2)', 2],
                          [r'apply_unary_op\(shell, \*op, (\w+), depth\)', r'__o.unop(*op, \1)', 1],
-                         [r'apply_unary_assignment_op\(shell, (\w+), \*op, depth\)', r'__o.incdec(\1, *op)', 1],
+                         [r'apply_unary_assignment_op\(shell, &?(\w+), \*op, depth\)', r'__o.incdec(&\1, *op)', 1],
                          [r'apply_binary_op\(\s*shell,\s*\*op,\s*([^,]+),\s*([^,]+),\s*depth,?\s*\)', r'__o.binop(*op, \1, \2)', 2]]},
 }
 @*/
@@ -66,6 +68,8 @@ impl Oracle {
         Ok(self.vals[tag])
     }
     fn deref(&mut self, _l: &ast::ArithmeticTarget) -> Result<i64, EvalError> { self.derefs += 1; Ok(self.deref_val) }
+    /// pin_subscript on a plain variable target (the targets of these harnesses) is the identity (vk_c07_pin_subscript)
+    fn pin(&mut self, l: &ast::ArithmeticTarget) -> Result<ast::ArithmeticTarget, EvalError> { Ok(l.clone()) }
     fn assign(&mut self, _l: &ast::ArithmeticTarget, v: i64) -> Result<i64, EvalError> {
         self.assigns += 1; self.assigned = Some(v); self.assign_after_ev = self.n > 0 || self.binop_args.is_some(); Ok(v)
     }
